@@ -12,7 +12,9 @@
 //	(b)  BlockStore.Write/Read round trip over a block alphabet (transactions, outputs, tickets,
 //	     magic block at / not at its starting round).
 //	(c)  crash points: the file written by BlockStore.Write is cut at every 512-byte prefix
-//	     (+0, 1, len-1, missing file); Read must fail or return exactly the block.
+//	     (+0, 1, len-1, missing file); Read must fail or return exactly the block. The index
+//	     file written by BlockDB.Save is cut at every byte prefix; Open must fail or every
+//	     stored key reads back exactly or with an error.
 package main
 
 import (
@@ -209,7 +211,7 @@ func c26IndexWorker() {
 	queries := c26Queries(keylen)
 	budget, _ := time.ParseDuration(os.Getenv("VERIF_HANG_CPU_BUDGET"))
 	if budget == 0 {
-		budget = 10 * time.Millisecond
+		budget = 6 * time.Millisecond
 	}
 	build := func(mask int) (blockdb.Index, blockdb.Index, map[string]int64) {
 		data, want := c26BuildIndexBytes(keylen, mask)
@@ -572,6 +574,50 @@ func c26DBWorker() {
 					}
 					_ = db3.Close()
 				}
+			}
+			// ---- crash points of Save: the index/header file cut at every byte prefix (the data
+			// file is complete by then). Open must fail, or every stored key must read back exactly
+			// or with an error - never as another record.
+			if (mask == 1<<len(keys)-1 || mask == 0b100101) && (variant == 0 || variant == 5) {
+				full, err := os.ReadFile(base + ".idx")
+				if err != nil {
+					ev.Fatal("read idx: %v", err)
+				}
+				for cut := 0; cut < len(full) && parked < 8; cut++ {
+					if err := os.WriteFile(base+".idx", full[:cut], 0o644); err != nil {
+						ev.Fatal("truncate idx: %v", err)
+					}
+					trans++
+					db4, _ := blockdb.NewBlockDB(base, int8(keylen), compress)
+					if hdr {
+						db4.SetDBHeader(&c26Hdr{})
+					}
+					if err := db4.Open(); err != nil {
+						out.outcome(fmt.Sprintf("torn-idx|%d|%d|open-error", mask, variant))
+						continue
+					}
+					busy := false
+					for _, w := range writtenOrder {
+						var got c26Rec
+						res, returned := runner.run(func() (int64, error) { return 0, db4.Read(blockdb.Key(w.K), &got) }, readBudget)
+						evals++
+						if !returned {
+							fail("C26:BlockDB.Read:torn-index-no-return", fmt.Sprintf("index file cut at %d of %d bytes: Open succeeded and Read(%q) does not return", cut, len(full), w.K), map[string]any{"idx_cut_at": cut, "idx_len": len(full), "query": w.K})
+							parked++
+							runner = c26NewRunner()
+							busy = true
+							break
+						}
+						if res.err == nil && (got.K != w.K || !bytes.Equal(got.P, w.P)) {
+							fail("C26:BlockDB.Read:torn-index-different-record", fmt.Sprintf("index file cut at %d of %d bytes: Read(%q) returned the record of %q", cut, len(full), w.K, got.K), map[string]any{"idx_cut_at": cut, "idx_len": len(full), "query": w.K})
+						}
+						out.outcome(fmt.Sprintf("torn-idx|%d|%d|read-err=%v", mask, variant, res.err != nil))
+					}
+					if !busy {
+						_ = db4.Close()
+					}
+				}
+				_ = os.WriteFile(base+".idx", full, 0o644)
 			}
 			_ = os.Remove(base + ".idx")
 			_ = os.Remove(base + ".dat")
@@ -1107,10 +1153,10 @@ func c26Main() {
 				}
 				if all {
 					run.Violation("C26:"+class,
-						fmt.Sprintf("key length %d, stored keys %v: GetOffset(%q) does not return (5 of 5 fresh processes, each stopped after 1 s of user CPU time spent inside the call; a returning lookup costs < 1 us); %d of the %d (key set, query) pairs of this key length did not return within 10 ms of user CPU time", kl, c26Subset(kl, c.mask), q, n, total),
+						fmt.Sprintf("key length %d, stored keys %v: GetOffset(%q) does not return (5 of 5 fresh processes, each stopped after 1 s of user CPU time spent inside the call; a returning lookup costs < 1 us); %d of the %d (key set, query) pairs of this key length did not return within 8 ms (2 scheduler ticks) of user CPU time", kl, c26Subset(kl, c.mask), q, n, total),
 						map[string]any{"keylen": kl, "stored_keys": c26Subset(kl, c.mask), "query": q, "index": c.kind, "how": "index := mapIndex{stored_keys}.Encode -> <index>.Decode; index.GetOffset(query)  (= BlockDB.Open; BlockDB.Read(query))"})
 				} else {
-					run.Capped(fmt.Sprintf("lookup %v/%q exceeded the 10 ms CPU budget in the batch run but returned when re-run alone: not reported", c26Subset(kl, c.mask), q))
+					run.Capped(fmt.Sprintf("lookup %v/%q exceeded the 8 ms CPU budget in the batch run but returned when re-run alone: not reported", c26Subset(kl, c.mask), q))
 				}
 			}
 		}
@@ -1153,6 +1199,7 @@ func c26Main() {
 			}(sh)
 		}
 		dwg.Wait()
+		lap("db_files")
 	}
 	run.Extra["index_lookups_not_returning"] = hangs
 	run.Sample(map[string]any{"part": "index", "stored_keys": c26Subset(2, 0b10101), "queries": c26Queries(2)})
@@ -1167,7 +1214,7 @@ func c26Main() {
 
 	run.Assumptions = []string{
 		"crash model: a process crash leaves a prefix of the file being written (every 512-byte prefix, 0, 1, len-1, or no file); earlier completed files are untouched",
-		"hang verdict: a lookup that consumed more than 10 ms of user-mode CPU time (3 scheduler ticks) on its own OS thread without returning (a returning lookup costs < 1 us) is a candidate; the minimal candidate of each class is re-run alone 5x in fresh processes with a 1 s CPU budget before it is reported",
+		"hang verdict: a lookup that consumed 8 ms (2 scheduler ticks) of user-mode CPU time on its own OS thread without returning (a returning lookup costs < 1 us) is a candidate; the minimal candidate of each class is re-run alone 5x in fresh processes with a 1 s CPU budget before it is reported",
 		"DB-level Read is not re-executed for (key set, query) pairs whose index lookup - Read's first step - does not return",
 		"block equality = equality of the JSON form (all persisted fields: hash, header, tickets, transactions with outputs, magic block) plus MagicBlock.GetHash()",
 	}
